@@ -155,8 +155,17 @@ def check_config(cfg, seed, part):
                     if k not in r0.par_names:
                         r0[k] = [0.01] * (u.km / u.s / u.day ** (int(k[1:]) if k.startswith("v") else 0))
                 tj.TheJoker(p0).setup_mcmc(data, r0)
+        hook_seen = []
+
+        def hook(mcmc_init, chosen, mdl):
+            # the documented hook: derives extra entries of the initial point from the sample setup_mcmc chose
+            hook_seen.append((len(chosen), np.atleast_1d(chosen["P"].to_value(u.day)).tolist(), mdl is model))
+            out = dict(mcmc_init)
+            out["__derived"] = np.atleast_1d(chosen["M0"].to_value(u.rad)) - np.atleast_1d(chosen["omega"].to_value(u.rad))
+            return out
+
         with model:
-            init = joker.setup_mcmc(data, rows)
+            init = joker.setup_mcmc(data, rows, **({"custom_func": hook} if cfg.get("hook") else {}))
     except Exception as e:
         part.violation(case0, f"setup_mcmc raised {type(e).__name__}: {str(e)[:300]}")
         return
@@ -184,6 +193,16 @@ def check_config(cfg, seed, part):
             part.violation(dict(case0, part="mcmc_init"), f"mcmc_init['{k}'] is not the chosen (median-period) sample expressed in the prior's units",
                            expected=w, observed=None if k not in init else float(init[k]))
             return
+    if cfg.get("hook"):
+        wd = want_init["M0"] - want_init["omega"]
+        ok = len(hook_seen) == 1 and hook_seen[0][0] == 1 and np.allclose(hook_seen[0][1], [Ps[j]]) and hook_seen[0][2] and "__derived" in init and \
+            np.ndim(init["__derived"]) == 0 and np.isclose(float(init["__derived"]), wd)
+        if not ok:
+            part.violation(dict(case0, part="custom_func"), "custom_func must be called once with the current initial point, the ONE chosen sample and the model, and its "
+                           "result must be the returned initial point", expected=dict(n=1, P=[Ps[j]], derived=wd),
+                           observed=dict(calls=hook_seen, derived=None if "__derived" not in init else np.asarray(init["__derived"]).tolist()))
+            return
+        init = {k: v for k, v in init.items() if k != "__derived"}
     if set(init) != set(want_init):
         part.violation(dict(case0, part="mcmc_init"), "mcmc_init keys differ from the prior's parameters", expected=sorted(want_init), observed=sorted(init))
         return
@@ -232,9 +251,10 @@ def check_config(cfg, seed, part):
     except Exception as e:
         part.violation(case0, f"compiling the model raised {type(e).__name__}: {str(e)[:300]}")
         return
-    thetas = [(3.3, 0.1, 1.3, 2.1, 0.3), (41.7, 0.6, 4.0, 5.5, 0.3), (365.25, 0.3, 0.4, 0.7, 0.3), (2.1, 0.85, 6.0, 3.0, 0.3)]
+    thetas = [(3.3, 0.1, 1.3, 2.1, 0.3), (41.7, 0.6, 4.0, 5.5, 0.3), (365.25, 0.3, 0.4, 0.7, 0.3), (2.1, 0.85, 6.0, 3.0, 0.3),
+              (1.6, 0.96, 2.0, 1.0, 0.3)]  # last: the K-prior variance cap binds only through the eccentricity factor
     if dec["jitter"] == "sampled":
-        thetas = [t[:4] + (s,) for t, s in zip(thetas, (0.2, 1.1, 0.05, 0.6))]
+        thetas = [t[:4] + (s,) for t, s in zip(thetas, (0.2, 1.1, 0.05, 0.6, 0.4))]
     xs = [np.array([5.0, 1.0] + [0.5, -0.7][:no] + [0.02, -0.001][: pt_ - 1]), np.array([-12.0, -3.0] + [-1.5, 2.0][:no] + [-0.05, 0.002][: pt_ - 1]),
           np.array([0.3, 20.0] + [0.0, 0.1][:no] + [0.0, 0.0][: pt_ - 1])]
     ref_tot, imp_tot = [], []
@@ -307,6 +327,8 @@ def configs(quick):
         out.append(dict(poly_trend=pt_, n_offsets=no, jitter=jit, units=un, n_init=5 if (pt_ + no) % 2 else 1))
     for pt_, no, jit in ((1, 0, "constant"), (2, 1, "sampled"), (3, 0, "constant"), (2, 2, "constant")):
         out.append(dict(poly_trend=pt_, n_offsets=no, jitter=jit, units="default", n_init=5, logprobs=True))
+        out.append(dict(poly_trend=pt_, n_offsets=no, jitter=jit, units="prior_ms" if no else "default", n_init=5, hook=True))
+        out.append(dict(poly_trend=pt_, n_offsets=no, jitter=jit, units="default", n_init=1, hook=True))
         out.append(dict(poly_trend=pt_, n_offsets=no, jitter=jit, units="default", n_init=1, reuse=True))
     for pt_ in (1, 2, 3):
         for tref in ("utc", "tcb"):
@@ -321,9 +343,9 @@ def main():
         PID, "exploration",
         "configurations poly_trend 1..3 x offsets 0..2 (surveys interleaved in time) x jitter {constant, sampled} x units {all default; "
         "period prior in yr; K / trend / offset / jitter priors in m/s with data in km/s; errors in another unit than the velocities} "
-        "(72; quick: a 24-configuration third) plus explicit reference epochs given in UTC / TCB, samples carrying ln_prior / ln_likelihood columns, and a call "
+        "(72; quick: a 24-configuration third) plus explicit reference epochs given in UTC / TCB, samples carrying ln_prior / ln_likelihood columns, a custom_func hook (must see the one chosen sample), and a call "
         "history in which another model was built from the SAME data object first (inputs must come back unmodified): setup_mcmc is called with 1 or 5 samples (columns in foreign units), the model's "
-        "model_rv / ln_likelihood / logp(jacobian=False) are compiled once with RVs replaced by values and evaluated on 4 theta x 3 "
+        "model_rv / ln_likelihood / logp(jacobian=False) are compiled once with RVs replaced by values and evaluated on 5 theta (one where the K-variance cap binds only through 1/sqrt(1-e^2)) x 3 "
         "linear-parameter points: model_rv = M(theta) x (reference Kepler solver and design matrix), ln_likelihood = ln N(y|model, "
         "sigma^2+s^2), differences of the log-density = differences of declared prior + Gaussian term, mcmc_init = median-period sample "
         "in the prior's units, and JokerSamples.from_inference_data gives the chain back in the prior's units with divergent draws removed. Non-trivial: a configuration passing all four.",
